@@ -154,9 +154,9 @@ func leanTokIds(ids []tokId) string {
 	return "[" + strings.Join(o, ",\n   ") + "]"
 }
 
-// syntaxStringConsts: the package-level string constants of package syntax
+// lexerStringConsts: the package-level string constants of package syntax
 // (`name = "text"`, also inside a const group, also `name = T("text")`).
-func syntaxStringConsts(repo string) (map[string]string, error) {
+func lexerStringConsts(repo string) (map[string]string, error) {
 	dir := filepath.Join(repo, "martian/syntax")
 	ents, err := os.ReadDir(dir)
 	if err != nil {
@@ -339,7 +339,7 @@ func tokenSwitch(repo string) ([]tokClause, error) {
 	if !ok || sw.Init != nil || nodeText(sw.Tag) != "r" {
 		return nil, fmt.Errorf("keywordToken: no `switch r`")
 	}
-	consts, err := syntaxStringConsts(repo)
+	consts, err := lexerStringConsts(repo)
 	if err != nil {
 		return nil, err
 	}
